@@ -233,6 +233,15 @@ func init() {
 		c.e.block(c.g, "vfPark", func() bool { return false }, nil)
 		return nil, callBlocked
 	}
+	vfIntrinsics["vfIsConcrete"] = func(c *callCtx, a []Value) (Value, callStatus) {
+		sl := a[0].(Slice)
+		for i := 0; i < sl.len; i++ {
+			if t, ok := sl.obj.get(sl.off + i).(*Term); ok && !t.IsConst() {
+				return False, callDone
+			}
+		}
+		return True, callDone
+	}
 	vfIntrinsics["vfSymbolic"] = func(c *callCtx, a []Value) (Value, callStatus) {
 		return Bool(!c.e.opts.Concrete && c.e.opts.ForcedModel == nil), callDone
 	}
